@@ -55,18 +55,31 @@ def logged_on_prefix(role, hb, p):
     return [act("run"), p("logon", hb=hb)]
 
 
-def gen_timing(rnd, n_per):
+ALL_KINDS = ["idle", "sendnear", "inboundnear", "silence", "answer", "steady", "burst", "stop", "logoutthenidle", "relogon", "relogonsteady",
+             "midcall", "whilewaiting", "logoutnoanswer", "burststeady"]
+
+
+def gen_core(rnd):
+    """multi-step patterns that are always part of the pool (every kind, both roles, a short and a long interval)"""
+    out = []
+    for kind in ALL_KINDS:
+        reps = 4 if kind in ("whilewaiting", "midcall", "stop") else 1
+        out += gen_timing(rnd, reps, kinds=[kind], Ns=(1, 30), tag="core")
+    return out
+
+
+def gen_timing(rnd, n_per, kinds=None, Ns=(1, 2, 3, 5, 10, 30, 60), tag="tm"):
     """C08 / C09 / C15 scenarios: sends and arrivals just before / on / after the deadlines."""
     out = []
     for role in ("acceptor", "initiator"):
-        for N in (1, 2, 3, 5, 10, 30, 60):
+        for N in Ns:
             T = N * 1000
             tin = (N + max(1, N // 20)) * 1000
             base_cfg = cfg(role, hbmin=1, hbmax=60, hbcfg=N, closems=rnd.choice([0, 1, 500, 1000, 10000]))
             for k in range(n_per):
                 p = Peer()
                 st = logged_on_prefix(role, N, p)
-                kind = rnd.choice(["idle", "sendnear", "inboundnear", "silence", "answer", "steady", "burst", "stop", "logoutthenidle", "relogon", "relogonsteady", "midcall", "whilewaiting", "logoutnoanswer"])
+                kind = rnd.choice(kinds or ALL_KINDS)
                 if kind == "idle":
                     st += [act("advance", ms=rnd.choice([T - 1, T, T + T // 10, 3 * T, 7 * T + 13]))]
                 elif kind == "sendnear":
@@ -120,6 +133,14 @@ def gen_timing(rnd, n_per):
                     # a local Logout the peer never answers, then more traffic
                     st += [act("advance", ms=rnd.choice([1, T // 2])), act("llogout"), act("advance", ms=rnd.choice([tin + tin // 10 + 1, 2 * tin + tin // 4, T]))]
                     st += [p(rnd.choice(["hbt", "app", "testreq", "resend"]), id=[73], b=1, e=0), p("hbt"), act("advance", ms=tin + tin // 10 + 1)]
+                elif kind == "burststeady":
+                    # two inbound messages a little more than the tolerance apart, then the peer speaks again exactly N after the
+                    # second one, several times: never silent for longer than N, so never probed
+                    tol = max(1, N // 20) * 1000
+                    for _ in range(rnd.randint(2, 5)):
+                        st += [act("advance", ms=rnd.choice([T // 3, T // 2])), p("hbt"),
+                               act("advance", ms=rnd.choice([tol + 1, tol + max(1, (tin // 10 - tol) // 2), max(tol + 1, tin // 10 - 1)])), p("app"),
+                               act("advance", ms=T), p("hbt")]
                 elif kind == "relogonsteady":
                     # a second logon on the same session, then a live peer (period <= N) for many periods: never probed
                     st += [act("advance", ms=rnd.choice([T // 2, T])), p("logout"), act("advance", ms=rnd.choice([1, 300, T])), p("logon", hb=N)]
@@ -132,7 +153,7 @@ def gen_timing(rnd, n_per):
                         p.n += 1
                         st += [act(rnd.choice(["send", "llogout", "send"]), mid=rnd.choice(["logout", "hbt", "testreq", "logout"]), midSeq=p.n, hb=N)]
                         st += [p("hbt"), p("logon", hb=N)]
-                out.append(dict(id="tm-%s-%d-%s-%d" % (role[0], N, kind, k), cfg=base_cfg, steps=st))
+                out.append(dict(id="%s-%s-%d-%s-%d" % (tag, role[0], N, kind, k), cfg=base_cfg, steps=st))
     return out
 
 
@@ -258,7 +279,7 @@ def gen_damage(rnd, n):
     out = []
     k = 0
     for role in ("acceptor", "initiator"):
-        for state in ("pre", "logged", "wlo", "afterlogout"):
+        for state in ("pre", "logged", "wlo", "afterlogout", "wtr"):
             for ty in ("logon", "logout", "hbt", "testreq", "resend"):
                 for integ, sq in (("checksum", "ok"), ("bodylength", "ok"), ("nonnum", "ok"), ("none", "nonnum"),
                                   ("none", "missing"), ("checksum", "missing"), ("bodylength", "nonnum"), ("none", "ok")):
@@ -267,6 +288,8 @@ def gen_damage(rnd, n):
                     if state != "pre":
                         st.append(p("logon", hb=30))
                         st += [act("send"), p("hbt")]
+                    if state == "wtr":
+                        st.append(act("advance", ms=33001))   # hb=30: the inbound timeout passes, the session sends its TestRequest
                     if state == "wlo":
                         st.append(act("llogout"))
                     if state == "afterlogout":
@@ -388,6 +411,7 @@ def common_pool(run, rnd, quick):
         scns += tlc_scenarios(run, role, "admin", 2 if quick else 3, keep=(250 if quick else 4000), rnd=rnd)
         scns += tlc_scenarios(run, role, "time", 3 if quick else 4, keep=(150 if quick else 3000), rnd=rnd, hbcfg=2)
         scns += tlc_scenarios(run, role, "mix", 7, simulate="num=%d" % (80 if quick else 1500), rnd=rnd)
+    scns += gen_core(rnd)
     scns += gen_timing(rnd, 2 if quick else 25)
     scns += gen_ids(rnd, 10 if quick else 400)
     scns += gen_resend(rnd, 40 if quick else 1200)
